@@ -9,4 +9,5 @@ python3 tools/extract.py || echo "setup: extractor reported failures (the affect
 (cd lean && lake build) || echo "setup: some Lean modules failed to build (the affected checks will report them)"
 (cd lean && lake build umdriver) || { echo "setup: driver build failed"; exit 1; }
 (cd harness && cargo build --release --offline --bins) || { echo "setup: harness build failed"; exit 1; }
+(cd harness && RUSTFLAGS="--cfg undermoon_verif --check-cfg cfg(undermoon_verif) -Awarnings" CARGO_PROFILE_RELEASE_LTO=false CARGO_PROFILE_RELEASE_DEBUG=false CARGO_PROFILE_RELEASE_CODEGEN_UNITS=16 CARGO_PROFILE_RELEASE_OPT_LEVEL=2 cargo build --release --offline --manifest-path /repo/Cargo.toml --bin server_proxy --target-dir /verif/.build/target-repo) || echo "setup: server_proxy (child process of the C16 check) did not build; tools/vcheck C16 will retry and report it"
 echo setup-ok
